@@ -213,10 +213,11 @@ def toHexS (n : Nat) : Str :=
   go 16 n []
 
 /-- `handle_charref` (html.py:217-233): windows-1252 extensions are mapped to their code points -/
+def charrefValue (ref : Str) : Nat := match ref with | 'x' :: h => natOfHex h | _ => natOfDec ref
+
 def charrefPiece (t : Tables) (ref0 : Str) : Str :=
   let ref := lowerS ref0
-  let value := match ref with | 'x' :: h => natOfHex h | _ => natOfDec ref
-  match t.cp1252.find? (·.1 == value) with
+  match t.cp1252.find? (·.1 == charrefValue ref) with
   | some p => s "&#x" ++ toHexS p.2 ++ [';']        -- "&#%s;" % hex(ord(c))[1:]
   | none => s "&#" ++ ref ++ [';']
 
@@ -271,5 +272,29 @@ def shipped : Tables :=
     svgEMap := LM Gen.Sanitizer.svgElemMap, svgAMap := LM Gen.Sanitizer.svgAttrMap,
     unacc := L Gen.Sanitizer.unacceptableElementsWithEndTag, voidE := L Gen.Sanitizer.elementsNoEndTag,
     entities := L Gen.Sanitizer.entityNames, cp1252 := Gen.Sanitizer.cp1252 }
+
+end FeedVerif.San
+
+namespace FeedVerif.San
+
+/-! ### RelativeURIResolver (urls.py:119-174, after the `fix:` commit) as a token filter -/
+
+/-- `unknown_starttag` of the resolver: normalise, replace the values of table attributes by the
+safe join, serialise -/
+def resolverStart (relTable : List (Str × Str)) (resolve : Str → Str) (tag : Str) (attrs : List Attr) : Piece :=
+  .stag tag ((normalizeAttrs attrs).map fun (k, v) =>
+    (k, escapeAttr (if relTable.contains (tag, k) then resolve v else v)))
+
+/-- every other callback is the plain `BaseHTMLProcessor` behaviour (nothing is dropped):
+pieces as strings, since PIs and declarations are re-emitted too -/
+def resolverStep (t : Tables) (relTable : List (Str × Str)) (resolve : Str → Str) : Tok → Str
+  | .stag tag attrs => serializePiece t (resolverStart relTable resolve tag attrs)
+  | .etag tag => serializePiece t (.etag tag)
+  | .text x => x
+  | .charref r => charrefPiece t r
+  | .entref r => entrefPiece t r
+  | .comment c => s "<!--" ++ c ++ s "-->"
+  | .pi x => s "<?" ++ x ++ ['>']
+  | .decl x => s "<!" ++ x ++ ['>']
 
 end FeedVerif.San
